@@ -217,7 +217,7 @@ def engine(prop, spec, tier, seed, work):
     return ev, problems, {}
 
 def register(PROPS):
-    common = {"engine": "conc", "engine_fn": engine,
+    common = {"engine": "conc", "engine_fn": engine, "orderings": True,
               "trusted_extra": ["the controlled scheduler parks threads only at the lasso_verif points: interleavings finer than that (and weak-memory reorderings; the hardware is x86-TSO) are not exhibited by the tie, they are covered by the model-level theorems only",
                                 "the point-granularity argument of DESIGN.md section 4.4 (between two points a thread touches shared mutable state at most once) is made on paper",
                                 "DashMap is modelled as an association list guarded by per-shard reader-writer locks; its internals are not verified"]}
